@@ -465,7 +465,7 @@ def _literal_success_branches(fn):
     for n in ast.walk(fn):
         if isinstance(n, ast.If):
             t = ast.unparse(n.test)
-            if ('_text[slice(' in t and '==' in t) or t.startswith('match') or ('_text[_pos] ==' in t):
+            if ('_text' in t and ('==' in t or 'startswith' in t)) or t.startswith('match'):
                 out.append(n)
     return out
 
